@@ -285,6 +285,23 @@ fn exhaustive_body(body: &str, univ: &Univ) -> ExhOut {
             };
             out.lines += 1;
             let mut rm = RegexManager::default();
+            // second pass after the compiled regex has been discarded (it is recreated lazily):
+            // the recreated regex must give the same answers
+            let mut first_pass: Vec<bool> = Vec::with_capacity(univ.reqs.len());
+            for (rq, _, _) in &univ.reqs {
+                first_pass.push(f.matches(rq, &mut rm));
+            }
+            rm.discard_regex(&f as *const NetworkFilter as u64);
+            for (i, (rq, _, u)) in univ.reqs.iter().enumerate() {
+                if f.matches(rq, &mut rm) != first_pass[i] {
+                    out.viol.push((
+                        "C02:answer-changes-after-regex-discard-and-recreate".to_string(),
+                        json!({"rule": line, "url": u, "before_discard": first_pass[i], "after_recreate": !first_pass[i]}),
+                    ));
+                    break;
+                }
+            }
+            rm.discard_regex(&f as *const NetworkFilter as u64);
             for (rq, h, u) in &univ.reqs {
                 let got = f.matches(rq, &mut rm);
                 let exp = reference(anchor, rh, body, u, h);
